@@ -219,3 +219,49 @@ func init() {
 		return "ok " + m[1] + " " + m[2] + " " + strings.TrimPrefix(m[3], "+") + " " + m[4]
 	})
 }
+
+func init() {
+	// every command behaves identically whatever the number of CPUs (C07): read-only commands compared by
+	// exit code, stdout and error text; one mutating command compared by the file it writes
+	register("cpus-all", func(a []string) string {
+		text := argBytes(a[0])
+		dir := scratchDir()
+		defer os.RemoveAll(dir)
+		f := filepath.Join(dir, "in.klg")
+		n := 0
+		cmds := append([][]string{}, readOnlyCommands...)
+		cmds = append(cmds, []string{"total", "--now"}, []string{"print", "--tag", "tag"}, []string{"json", "--sort", "desc"})
+		for _, cmd := range cmds {
+			if strings.Contains(strings.Join(cmd, " "), "--fill") && len(text) > 0 {
+				continue
+			}
+			var ref string
+			for i, cpus := range []int{1, 2, 3, 7, 64} {
+				writeFile(f, text)
+				e := &cliEnv{Home: dir, Sticky: true, Clock: []gotime.Time{fixedNoon}, NumCpus: cpus}
+				code, out, errText := runSafely(e, append(append([]string{}, cmd...), f)...)
+				got := strconv.Itoa(code) + "\x00" + out + "\x00" + errText
+				if i == 0 {
+					ref = got
+				} else if got != ref {
+					return "differs " + strings.Join(cmd, "_") + " cpus=" + strconv.Itoa(cpus)
+				}
+				n++
+			}
+		}
+		var refFile string
+		for i, cpus := range []int{1, 2, 3, 8} {
+			writeFile(f, text)
+			e := &cliEnv{Home: dir, Sticky: true, Clock: []gotime.Time{fixedNoon}, NumCpus: cpus}
+			code, _, _ := runSafely(e, "track", "--no-warn", "1h cpu test", f)
+			got := strconv.Itoa(code) + "\x00" + readFile(f)
+			if i == 0 {
+				refFile = got
+			} else if got != refFile {
+				return "differs track cpus=" + strconv.Itoa(cpus)
+			}
+			n++
+		}
+		return "same " + strconv.Itoa(n)
+	})
+}
